@@ -93,7 +93,10 @@ def run(rep):
                 rep.bad("PROV-NOENUM", "PROV-NOENUM/%s/%s" % (fname, fn), n["sp"], "no enumeration of the document", show(n)[:80])
         # cache fill: mem::replace(&mut cache[i], Some(value)) with value = document.find(&columns[i]) same i
         for n, path in walk_with_path(f.body):
-            if call_is(n, "mem::replace"):
+            isfill = n.get("k") == "Assign" and (call_is(peel(n["lhs"]), "IndexMut::index_mut") or peel(n["lhs"]).get("k") == "Index")
+            if call_is(n, "mem::replace") or isfill:
+                if isfill:
+                    n = dict(n, args=[n["lhs"], n["rhs"]])
                 tgt = peel(n["args"][0])
                 ok = False
                 det = show(n)
